@@ -1,4 +1,5 @@
 import PyPhysim.Proofs.C17Files
+import PyPhysim.Proofs.C17Ops
 
 /-!
 # C17 — saving and loading parameters and results loses nothing
@@ -100,6 +101,46 @@ theorem params_second_roundtrip (c : Chain) (fuel : Nat) (hne : c ≠ []) (hf : 
 /-- the dict form alone (`_from_dict(_to_dict(p))`, no JSON) is the identity -/
 theorem params_dict_roundtrip (c : Chain) (fuel : Nat) (hne : c ≠ []) (hf : c.length ≤ fuel) :
     paramsFromDict fuel (paramsToDict c) = .ok c := paramsFromDict_toDict c fuel hne hf
+
+/-- Children that were changed after unpacking (round 4).  Whatever list of
+    `add` / `p[name] = v` / `remove` / `set_unpack_parameter` calls is applied —
+    each to the object itself (level 0) or to any of its originals (level 1, 2, …),
+    with supported values under non-reserved names — the resulting chain is again
+    read back exactly: every object of the chain with *its own* parameter values. -/
+theorem params_roundtrip_after_mutation (c c' : Chain) (ops : List (Nat × POp)) (fuel : Nat)
+    (hne : c ≠ []) (hw : wfChain c = true) (ho : ∀ p ∈ ops, opOk p.2)
+    (h : applyOps c ops = .ok c') (hf : c.length ≤ fuel) :
+    paramsFromJson fuel (paramsToJson c') = .ok (normChain c') := by
+  obtain ⟨hw', hl⟩ := wfChain_applyOps ops c c' hw ho h
+  refine params_json_roundtrip c' fuel ?_ (by rw [hl]; exact hf) hw'
+  intro hc
+  rw [hc] at hl
+  cases c with
+  | nil => exact hne rfl
+  | cons n r => simp at hl
+
+/-- … in particular a child whose fixed parameter `k` was set to `v` after
+    unpacking is read back with `v` (normalised) for `k`, whatever its original
+    holds for `k`, and the original is read back unchanged. -/
+theorem child_keeps_own_value (n : Node) (rest : Chain) (k : String) (v : PyVal) (fuel : Nat)
+    (hw : wfChain (n :: rest) = true) (hk : reserved k = false) (hv : wf v = true)
+    (hf : rest.length + 1 ≤ fuel) :
+    ∃ n', paramsFromJson fuel (paramsToJson ({ n with parameters := setKV k v n.parameters } :: rest))
+        = .ok (n' :: normChain rest)
+      ∧ lookup k n'.parameters = some (norm v)
+      ∧ n'.unpackIndex = n.unpackIndex ∧ n'.unpacked = n.unpacked := by
+  have hw' : wfChain ({ n with parameters := setKV k v n.parameters } :: rest) = true := by
+    simp only [wfChain, List.all_cons, Bool.and_eq_true, wfNode] at hw ⊢
+    exact ⟨⟨wfKVs_setKV k v hk hv _ hw.1.1, hw.1.2⟩, hw.2⟩
+  refine ⟨_, params_json_roundtrip _ fuel (by simp) (by simpa using hf) hw', ?_, rfl, rfl⟩
+  simp only [Node.norm, lookup_normKVs, lookup_setKV_self, Option.map]
+
+/-- non-vacuity: `M` is 4 in the original and is set to 16 in the child -/
+example : (applyOps
+    [{ parameters := [("snr", .int 5), ("M", .int 4)], unpacked := [], unpackIndex := 0 },
+     { parameters := [("snr", .list [.int 5, .int 10]), ("M", .int 4)], unpacked := ["snr"], unpackIndex := -1 }]
+    [(0, .set "M" (.int 16)), (1, .set "taps" (.list [.int 1])), (0, .remove "snr")]).toOption.map
+      (fun c => c.map (fun n => n.parameters.map (·.1))) = some [["M"], ["snr", "M", "taps"]] := by decide
 
 /-- non-vacuity: an unpacked child (index 1) of a parameter set with an unpacked
     float32 array -/
